@@ -1,27 +1,17 @@
 From Coq Require Import NArith List String.
-From PK Require Import Base.Outcome Base.Machine Gen.Types Impl Syn.Set1 Check.Scan Check.C07 Enc.
+From PK Require Import Base.Outcome Base.Machine Base.Reach Gen.Types Impl Syn.Set1 Check.Scan Check.C07 Enc.
 Import ListNotations.
 Local Open Scope N_scope.
 Notation I := syn_set1.
 Notation s0 := (ScancodeSet1_mk DecodeState_Start).
-(* shortest byte path from the initial state to each explored state (BFS order), then the offending byte *)
-Definition paths : list (sc_st I * list N) :=
-  (fix go (fuel : nat) (known frontier : list (sc_st I * list N)) : list (sc_st I * list N) :=
-     match fuel with O => known | S f =>
-       let next := fold_left (fun acc sp =>
-            fold_left (fun acc b => match sc_step I (fst sp) b with
-                                    | Ret (s', _) => if existsb (fun q => sc_eqb I (fst q) s') (known ++ acc) then acc else acc ++ [(s', snd sp ++ [b])]
-                                    | Panic => acc end) all_bytes acc) frontier [] in
-       match next with [] => known | _ => go f (known ++ next) next end end) 64%nat [(s0, [])] [(s0, [])].
-Definition path_to (s : sc_st I) : list N :=
-  match find (fun q => sc_eqb I (fst q) s) paths with Some q => snd q | None => [] end.
-(* witness: a byte stream whose last byte is answered with an event/error (or a panic) without the
+Notation key := ScancodeSet1_hash.
+(* witness: a shortest byte stream whose last byte is answered with an event/error (or a panic) without the
    decoder returning to its initial state, followed by the probe 0x1C whose decoding then differs *)
 Eval vm_compute in ("cex"%string,
-  map (fun c : sc_st I * N =>
-         let bs := path_to (fst c) ++ [snd c] in
-         (1 :: bs ++ [0x1C],
-          enc_sc (omap snd (sc_step I s0 0x1C)),
-          enc_sc (omap (fun os => last os (Ok None)) (outs (scan_machine I) s0 (bs ++ [0x1C])))))
-      (firstn 10 (nonresetting I s0))).
-Eval vm_compute in ("nonresetting"%string, N.of_nat (List.length (nonresetting I s0))).
+  match find_nonresetting I key s0 with
+  | Some bs =>
+      [(1 :: bs ++ [0x1C],
+        enc_sc (omap snd (sc_step I s0 0x1C)),
+        enc_sc (omap (fun os => last os (Ok None)) (outs (scan_machine I) s0 (bs ++ [0x1C]))))]
+  | None => []
+  end).
